@@ -52,15 +52,16 @@ Step ==
   /\ LET e == Tr[l] IN
      IF e.op = "reset" THEN objs' = Fresh /\ skip' = FALSE
      ELSE IF skip THEN UNCHANGED << objs, skip >>
-     ELSE LET r1 == Res(objs, e, 1)
-              good == {k \in 1..Len(Cands) : Res(objs, e, k).all = {}}
-              k == IF good = {} THEN 1 ELSE CHOOSE x \in good : \A y \in good : x <= y
-              r == IF k = 1 THEN r1 ELSE Res(objs, e, k) IN
-          IF ~r1.ok \/ good = {}
-          THEN /\ PrintT(ToJson([v |-> "MISMATCH", l |-> l, f |-> IF r1.ok THEN r1.all ELSE {"call-not-allowed-by-spec"}]))
-               /\ skip' = TRUE /\ UNCHANGED objs
-          ELSE /\ objs' = r.objs /\ skip' = FALSE
-               /\ (k > 1 => PrintT(ToJson([v |-> "DEVIATION", l |-> l, f |-> Cands[k]])))
+     ELSE LET r1 == Res(objs, e, 1) IN
+          IF r1.ok /\ r1.all = {} THEN objs' = r1.objs /\ skip' = FALSE
+          ELSE LET good == IF r1.ok THEN {k \in 2..Len(Cands) : Res(objs, e, k).all = {}} ELSE {} IN
+               IF good = {}
+               THEN /\ PrintT(ToJson([v |-> "MISMATCH", l |-> l, f |-> IF r1.ok THEN r1.all ELSE {"call-not-allowed-by-spec"}]))
+                    /\ skip' = TRUE /\ UNCHANGED objs
+               ELSE LET k == CHOOSE x \in good : \A y \in good : x <= y
+                        r == Res(objs, e, k) IN
+                    /\ objs' = r.objs /\ skip' = FALSE
+                    /\ PrintT(ToJson([v |-> "DEVIATION", l |-> l, f |-> Cands[k]]))
   /\ (l = Len(Tr) => PrintT(ToJson([v |-> "TRACE-END", l |-> l, f |-> {}])))
   /\ l' = l + 1
 Spec == Init /\ [][Step]_<< objs, l, skip >>
